@@ -7,7 +7,7 @@ export CARGO_TARGET_DIR=/tmp/seedcheck-target
 [ -d $WT ] || git -C /repo worktree add -q --detach $WT HEAD
 cp /repo/Cargo.lock $WT/Cargo.lock
 for d in "$@"; do
-  P=$(echo $d | sed 's|/tmp/wt/\([^/]*\)/SEED/\(.*\)|\1-\2|')
+  prop=$(echo $d | sed 's|.*/\(C[0-9]*\)/SEED/.*|\1|'); k=$(basename $d); P=$prop-$((k + ${SEED_OFFSET:-0}))
   git -C $WT checkout -q -- . ; rm -f $WT/wgsl_to_wgpu/tests/demo.rs
   cp $d/demo.rs $WT/wgsl_to_wgpu/tests/demo.rs
   (cd $WT && cargo test -p wgsl_to_wgpu --offline --no-fail-fast > /tmp/seedcheck-$P-clean.log 2>&1); c1=$?
